@@ -91,13 +91,15 @@ static enum r9_result parse_fields(const uint8_t *b, size_t len, size_t *pos, st
 			uint8_t *nv = realloc(fl->val, fl->vlen + 1 + (e - s) + 1);
 			if (!nv) abort();
 			fl->val = nv;
-			nv[fl->vlen] = ' ';
+			/* the fold becomes one SP; the value as a whole stays OWS-trimmed */
+			size_t sep = (fl->vlen && e > s) ? 1 : 0;
+			if (sep) nv[fl->vlen] = ' ';
 			for (size_t i = s; i < e; i++) {
 				uint8_t c = b[i];
 				if (c == 0 || c == '\r') { c = ' '; m->alt_reject = 1; }
-				nv[fl->vlen + 1 + (i - s)] = c;
+				nv[fl->vlen + sep + (i - s)] = c;
 			}
-			fl->vlen += 1 + (e - s);
+			fl->vlen += sep + (e - s);
 			nv[fl->vlen] = 0;
 			continue;
 		}
